@@ -8,12 +8,14 @@ import (
 	"encoding/json"
 	"fmt"
 	"os"
+	"sort"
 	"strings"
 	"testing"
 	"time"
 
 	"verifsim/core"
 	"verifsim/kernel"
+	_ "verifsim/hook"
 	_ "verifsim/props/c13"
 )
 
@@ -294,17 +296,27 @@ func libraryRace(rep string) bool {
 
 func raceSig(rep string) string {
 	var fr []string
-	for _, ln := range strings.Split(rep, "\n") {
-		ln = strings.TrimSpace(ln)
-		if strings.HasPrefix(ln, "github.com/miekg/dns.") {
-			if i := strings.Index(ln, "("); i > 0 {
-				ln = ln[:i]
-			}
-			fr = append(fr, strings.TrimPrefix(ln, "github.com/miekg/dns."))
-			if len(fr) == 2 {
+	for _, b := range strings.Split(rep, "\n\n") {
+		t := strings.TrimSpace(b)
+		if !(strings.HasPrefix(t, "WARNING: DATA RACE") || strings.HasPrefix(t, "Previous ") || strings.HasPrefix(t, "Read at") || strings.HasPrefix(t, "Write at")) {
+			continue
+		}
+		for _, ln := range strings.Split(t, "\n") {
+			ln = strings.TrimSpace(ln)
+			if strings.HasPrefix(ln, "github.com/miekg/dns.") {
+				if i := strings.Index(ln, "("); i > 0 && !strings.HasPrefix(ln[i:], "(*") {
+					ln = ln[:i]
+				} else if j := strings.LastIndex(ln, "("); j > 0 {
+					ln = ln[:j]
+				}
+				fr = append(fr, strings.TrimPrefix(ln, "github.com/miekg/dns."))
 				break
 			}
 		}
+		if len(fr) == 2 {
+			break
+		}
 	}
+	sort.Strings(fr)
 	return strings.Join(fr, "|")
 }
